@@ -149,9 +149,10 @@ def run_c17(tier):
             n = chk.rng.randint(1, 5)
             members = []
             for i in range(n):
-                kind = chk.rng.choice(['plain', 'fixed', 'optional'])
+                kind = chk.rng.choice(['plain', 'plain', 'fixed', 'optional'] + (['dyn', 'limited'] if i else []))
                 members.append(M.StructMember('m%d' % i, chk.rng.choice(['u8', 'u16', 'u32', 'u64']),
-                                              size=str(chk.rng.randint(1, 3)) if kind == 'fixed' else None,
+                                              size=str(chk.rng.randint(1, 3)) if kind in ('fixed', 'limited') else None,
+                                              bound='m%d' % chk.rng.randrange(i) if kind in ('dyn', 'limited') else None,
                                               optional=(kind == 'optional')))
             before = [pm_of_member(m) for m in members]
             acts = []
@@ -192,9 +193,65 @@ def run_c17(tier):
             elif m.get('members') != impl:
                 chk.correspondence_mismatch('Patch.isarMembers / applyAll = isar.make_struct_members / patch.patch()', casej, impl, m)
         cli_patch_rules(chk, root)
+        patch_equivalences(chk, root)
     finally:
         shutil.rmtree(root, ignore_errors=True)
     return chk.finish()
+
+
+def patch_equivalences(chk, root):
+    """each documented patch rule applied to an isar struct gives the model of the prophy text the documentation
+    describes (docs/other_schemas.rst): same members, same layout, same bytes for the default message"""
+    import prophyc.model as M
+    head = '<x><struct name="T"><member name="n" type="u32"/>'
+    cases = [
+        ('static on a variable-size array', head + '<member name="x" type="u16"><dimension isVariableSize="true"/></member></struct></x>',
+         ['T static x 3'], 'struct T { u32 n; u32 x_len; u16 x[3]; };'),
+        ('static on a limited array', head + '<member name="x" type="u8"><dimension isVariableSize="true" size="4"/></member><member name="t" type="u16"/></struct></x>',
+         ['T static x 4'], 'struct T { u32 n; u32 x_len; u8 x[4]; u16 t; };'),
+        ('static on an externally sized array', head + '<member name="x" type="u8"><dimension variableSizeFieldName="@n"/></member></struct></x>',
+         ['T static x 2'], 'struct T { u32 n; u8 x[2]; };'),
+        ('static on a scalar', head + '<member name="x" type="u16"/></struct></x>', ['T static x 3'], 'struct T { u32 n; u16 x[3]; };'),
+        ('dynamic on a fixed array', head + '<member name="x" type="u16"><dimension size="2"/></member><member name="t" type="u8"/></struct></x>',
+         ['T dynamic x n'], 'struct T { u32 n; u16 x<@n>; u8 t; };'),
+        ('greedy on the last array', head + '<member name="x" type="u16"><dimension size="2"/></member></struct></x>',
+         ['T greedy x'], 'struct T { u32 n; u16 x<...>; };'),
+        ('type, insert, remove, rename', head + '<member name="a" type="u8"/><member name="b" type="u16"/></struct></x>',
+         ['T type a u64', 'T insert 1 k u16', 'T remove b', 'T rename a aa'], 'struct T { u32 n; u16 k; u64 aa; };'),
+        ('dynamic then static', head + '<member name="x" type="u16"><dimension size="2"/></member></struct></x>',
+         ['T dynamic x n', 'T static x 5'], 'struct T { u32 n; u16 x[5]; };'),
+    ]
+    for i, (note, xml, lines, text) in enumerate(cases):
+        d = os.path.join(root, 'pe%d' % i)
+        os.makedirs(d)
+        casej = {'rule': note, 'xml': xml, 'patch': lines, 'prophy': text}
+        chk.count(('patch-equivalence', note), True)
+        chk.bump('patch-equivalence')
+        try:
+            pn, pmod = py_impl.compile_prophy(text + '\n', d, 'p')
+            open(os.path.join(d, 'x.xml'), 'w').write(xml)
+            open(os.path.join(d, 'patch.txt'), 'w').write('\n'.join(lines) + '\n')
+            res, _ = py_impl.run_prophyc(['--isar', '--patch', os.path.join(d, 'patch.txt'), '--python_out', d, os.path.join(d, 'x.xml')])
+            xn = res['x']
+            xmod = py_impl.import_file(os.path.join(d, 'x.py'))
+        except Exception as ex:  # noqa
+            chk.property_violation(casej, {'what': 'compilation / import failed: %s: %s' % (type(ex).__name__, str(ex)[:300])})
+            continue
+
+        def members(nodes):
+            node = next(n for n in nodes if getattr(n, 'name', None) == 'T')
+            return [(m.name, m.type_name, m.bound, None if m.size is None else str(m.size), bool(m.greedy), bool(m.optional)) for m in node.members]
+        if members(pn) != members(xn) or node_layout(pn, 'T') != node_layout(xn, 'T'):
+            chk.property_violation(casej, {'what': 'isar + patch and the equivalent prophy text give different models',
+                                           'isar_patch': members(xn), 'prophy': members(pn), 'layouts': [node_layout(xn, 'T'), node_layout(pn, 'T')]})
+            continue
+        try:
+            ea, eb = pmod.T().encode('<'), xmod.T().encode('<')
+        except Exception as ex:  # noqa
+            chk.property_violation(casej, {'what': 'default message does not encode: %s' % py_impl.exc_class(ex)})
+            continue
+        if ea != eb:
+            chk.property_violation(casej, {'what': 'default messages encode differently', 'prophy': ea.hex(), 'isar_patch': eb.hex()})
 
 
 def cli_patch_rules(chk, root):
